@@ -4,7 +4,8 @@ cd "$(dirname "$0")/.."
 ./run build || exit 2
 rc=0
 for f in regressions/*.json; do
-  out=$(./bin/verif replay "$f" 2>&1); code=$?
+  if grep -q '"xbuild"' "$f"; then out=$(./checks/C18.sh replay "$f" 2>&1); code=$?
+  else out=$(./bin/verif replay "$f" 2>&1); code=$?; fi
   if [ $code -eq 0 ] && echo "$out" | grep -q NOT-REPRODUCED; then echo "ok   $f"; else echo "FAIL $f (exit $code): $out" | head -3; rc=1; fi
 done
 exit $rc
